@@ -7,10 +7,11 @@ assert.go for the scalar fragment, REPAIRED rules, see fixes/C01-*.patch);
 interval arithmetic: the C06 model and its soundness theorems (used, not restated).
 -/
 import WuffsVerif.Proof.WCoreBounds
+import WuffsVerif.Proof.WCoreStmt
 import WuffsVerif.Gen.C01_Tables
 
 namespace WuffsVerif.Props.C01
-open WuffsVerif.Interval WuffsVerif.WCore WuffsVerif.Proof.WCoreBounds
+open WuffsVerif.Interval WuffsVerif.WCore WuffsVerif.Proof.WCoreBounds WuffsVerif.Proof.WCoreStmt
 
 def baseOfName : String → Option Base
   | "i8" => some .i8 | "i16" => some .i16 | "i32" => some .i32 | "i64" => some .i64
@@ -52,5 +53,154 @@ theorem typeBounds_exact {t : Ty} {tb : IR} (h : typeBounds t = some tb) (v : In
 
 /-- non-vacuity: `base.u32[..= 7]` -/
 example : typeBounds ⟨.u32, none, some 7⟩ = some (mkIR 0 7) := by decide
+
+/--
+**bounds_contain** (C01, expression level; uses the C06 soundness theorems for
+every arithmetic operator).  If every fact of the situation is true in the store,
+every variable holds a value of its declared (refined) type, and the bounds checker
+accepts `e` with bounds `b`, then evaluating `e` trips no monitor (no overflow of a
+non-modular operation, no out-of-range shift, no division by zero, no bad
+conversion) and its value lies within `b` — hence, in particular, within the bounds
+the checker demands of an index, a shift amount, a divisor, a stored value.
+For ALL expressions of the fragment.
+-/
+theorem bounds_contain {env : Env} {fs : List Expr} {e : Expr} {b : IR}
+    (hf : FactsHold env fs) (hv : varsOk env e) (h : bcheck fs false e = some b) :
+    safe env false e ∧ b.mem (evalI env e) :=
+  bounds_contain' hf hv h
+
+/-- the value also fits the node's own (possibly refined) type -/
+theorem bounds_contain_type {env : Env} {fs : List Expr} {e : Expr} {b : IR}
+    (hf : FactsHold env fs) (hv : varsOk env e) (h : bcheck fs false e = some b)
+    (hne : (typeOf e).base ≠ .ideal) : inType (typeOf e) (evalI env e) :=
+  bounds_contain_type' hf hv h hne
+
+/-- non-vacuity: `(x as base.u32) + 1` with `x : base.u8`, under the fact `x < 10`,
+is accepted with bounds [1 ..= 10] -/
+example :
+    bcheck [.binary .lt (.var "x" ⟨.u8, none, none⟩) (.const 10)] false
+      (.binary .plus (.as ⟨.u32, none, none⟩ (.var "x" ⟨.u8, none, none⟩)) (.const 1))
+      = some (mkIR 1 10) := by decide
+
+/-- … and an overflowing `x + 1` with `x : base.u8` is rejected -/
+example :
+    bcheck [] false (.binary .plus (.var "x" ⟨.u8, none, none⟩) (.const 1)) = none := by decide
+
+/-! ## Statement layer (F1, scalar, straight-line): assignment and op-assignment
+
+`Situation Γ env fs`: the store respects the declared types, every fact of the
+checker's situation `fs` is true in it (C02 facts clause), the facts are well-typed
+comparisons.  `stmtSafe`: the monitors of one statement (right-hand side safe,
+operator monitor, stored value fits the refined destination type). -/
+
+/--
+**facts_hold_F1** (C02 facts clause + C01, one statement).  If the situation holds
+before an accepted assignment / op-assignment, then executing it trips no monitor
+and the situation the checker continues with holds afterwards: every fact it keeps
+(`dropAnyFactsMentioning`), rewrites (`x += c`: `x op e` becomes `x op e + c`) or
+adds (`lhs == rhs` unless the RHS mentions the LHS; `lhs >= lo`, `lhs <= hi`) is true
+in the new store.  REPAIRED rules; with the unrepaired ones the statement is false
+(`self_referential_assign_witness` below).
+-/
+theorem facts_hold_F1 {Γ : Ctx} {env : Env} {fs fs' : List Expr} {s : Stmt}
+    (S : Situation Γ env fs) (hw : wtStmt Γ s) (h : checkStmt fs s = some fs') :
+    stmtSafe env s ∧ Situation Γ (execStmt env s) fs' :=
+  stmt_sound S hw h
+
+/--
+**check_sound_F1_partial**: for straight-line blocks of assignments and
+op-assignments to scalar variables with pure right-hand sides of the fragment.  If
+the checker accepts the block from a situation that holds, then along the whole
+execution every statement is safe and, before each statement and at the end, every
+fact of the checker's situation there is true.
+Missing for the full `check_sound`: see the OPEN note below.
+-/
+theorem check_sound_F1_partial {Γ : Ctx} {env : Env} {fs fs' : List Expr} {ss : List Stmt}
+    (S : Situation Γ env fs) (hw : ∀ s ∈ ss, wtStmt Γ s) (h : checkBlock fs ss = some fs') :
+    HoldsAlong Γ fs env ss :=
+  block_sound ss fs fs' env S hw h
+
+/-- corollary: the final situation holds in the final store -/
+theorem check_sound_F1_final {Γ : Ctx} :
+    ∀ (ss : List Stmt) (fs fs' : List Expr) (env : Env), Situation Γ env fs →
+      (∀ s ∈ ss, wtStmt Γ s) → checkBlock fs ss = some fs' →
+      Situation Γ (runBlock env ss) fs' := by
+  intro ss
+  induction ss with
+  | nil =>
+    intro fs fs' env S _ h
+    simp only [checkBlock] at h; cases h; exact S
+  | cons s ss ih =>
+    intro fs fs' env S hw h
+    simp only [checkBlock] at h
+    split at h
+    · cases h
+    · rename_i fs1 h1
+      exact ih fs1 fs' _ (stmt_sound S (hw s List.mem_cons_self) h1).2
+        (fun t ht => hw t (List.mem_cons_of_mem _ ht)) h
+
+/-- non-vacuity of the statement layer: `x = args.a` then `x += 1` with
+`args.a : base.u32[..= 6]`, `x : base.u32[..= 7]` is accepted, and the checker ends
+with the facts `x >= 1`, `x <= 7` (the rewritten `x == args.a + 1` included) -/
+example :
+    checkBlock []
+      [.assign (.var "x" ⟨.u32, none, some 7⟩) (.var "args.a" ⟨.u32, none, some 6⟩),
+       .opAssign .plus (.var "x" ⟨.u32, none, some 7⟩) (.const 1)]
+      = some [.binary .eq (.var "x" ⟨.u32, none, some 7⟩)
+                (.binary .plus (.var "args.a" ⟨.u32, none, some 6⟩) (.const 1)),
+              .binary .le (.var "x" ⟨.u32, none, some 7⟩) (.const 7),
+              .binary .ge (.var "x" ⟨.u32, none, some 7⟩) (.const 1)] := by
+  decide
+
+/-- Defect witness (repaired by fixes/C01-fact-from-self-referential-assign.patch): the
+fact `x == (x + 1)` that the unrepaired `bcheckAssignment` recorded after `x = x + 1`
+is false in every store. -/
+theorem self_referential_assign_witness (env : Env) :
+    evalI env (.binary .eq (.var "x" ⟨.u32, none, none⟩)
+      (.binary .plus (.var "x" ⟨.u32, none, none⟩) (.const 1))) = 0 := by
+  simp [evalI, binSem, b2i]
+
+/-- … and the repaired rule does not record it -/
+example :
+    checkStmt [.binary .le (.var "x" ⟨.u32, none, none⟩) (.const 6)]
+      (.assign (.var "x" ⟨.u32, none, none⟩)
+        (.binary .plus (.var "x" ⟨.u32, none, none⟩) (.const 1)))
+      = some [.binary .ge (.var "x" ⟨.u32, none, none⟩) (.const 1),
+              .binary .le (.var "x" ⟨.u32, none, none⟩) (.const 7)] := by
+  decide
+
+/-- Defect witness (repaired by fixes/C01-mod-shift-left-lower-bound.patch): the
+unrepaired bounds `[lo << k, min(hi << k, max)]` of `x ~mod<< 1` for `x : base.u8` in
+[128, 255] were the EMPTY interval [256, 255], although the value exists (e.g. 0 for
+x = 128); the repaired rule gives the whole type range. -/
+theorem mod_shift_left_witness :
+    (mkIR 256 255).empty = true ∧
+    binSem .modshl .u8 128 1 = 0 ∧
+    binBounds [] .modshl (.var "x" ⟨.u8, none, none⟩) (mkIR 128 255) (.const 1) (mkIR 1 1)
+      = some (mkIR 0 255) := by
+  decide
+
+/-
+-- OPEN: the full-strength statement of C01 (DESIGN.md §C01):
+--
+--   theorem check_sound : ∀ (p : Pkg), check ∅ p = .ok → ∀ hist fuel,
+--       ¬ (runHist p hist fuel).isUnsafe
+--
+-- over all accepted packages, all call histories, all argument values, all buffer
+-- contents.  Proved here: the expression level for ALL scalar expressions
+-- (`bounds_contain`) and the statement level for straight-line scalar blocks
+-- (`facts_hold_F1`, `check_sound_F1_partial`).  Missing in the model (and so in the
+-- theorem): if/else with `unify` (set intersection of branch facts), while with
+-- pre/inv/post, break/continue/return, asserts and the `via` reason procedures
+-- (`proveBinaryOp`), arrays and the index obligations of `bcheckExprOther`
+-- (IDOpenBracket), struct fields behind `this`, method calls (argument checks of
+-- `bcheckExprCall`, the impure-call kill set), `checkNoRecursiveFuncs`, slices, I/O,
+-- coroutines.  For those the property is covered by the search only
+-- (harness/cmd/c01: monitored interpreter over the real typed AST + sanitizers).
+--
+-- Known, unrepaired unsoundness of the real checker outside this fragment
+-- (KNOWN_FINDINGS.txt): index aliasing (`a[e] = v` keeps facts about `a[c]`), stale
+-- pure-call facts (`y == this.get()` survives a store to the field read by get()).
+-/
 
 end WuffsVerif.Props.C01
